@@ -41,7 +41,8 @@ MANIFEST = {
     'technique': ('return-provenance of the decoder; dispatch totality of the policy factory against '
                   'the Algorithm enum; guard-in-constructor checks; backward provenance from every '
                   'TrialSuggestion construction to an allow-listed set of clipping decoders / '
-                  'config-enumerating producers; clamp/snap check of the eagle value producers'),
+                  'config-enumerating producers; clamp/snap check of the eagle value producers'
+                  "; interprocedural return classification of parameter-building helpers; grid values: provenance of every returned list (decoder / exact enumeration / unclamped transcendental arithmetic); default seeding: every return is the validating builder's ParameterDict"),
     'level_text': (
         'Static: every value that can reach a suggestion passes a decoder that clips to the '
         'original bounds or selects a feasible value (or is enumerated from the config); designers '
